@@ -159,6 +159,17 @@ _WHERE = {
             "the real dependency objects, CPython.",
             "TLA+ spec (Document/DocumentOps) model-checked with TLC; TLC-generated contents replayed into the code; "
             "tokenised real documents validated by TLC trace spec (DocTrace)"),
+    "C12": ("files", "C12",
+            "TLC checks percent-encoding round-trips for every short path over a hostile byte alphabet and, on a directory "
+            "model, every choice of listed files, present files (the fault sequence), all_files, include_version and stale "
+            "target content: a missing listed file raises with the target untouched, otherwise the target holds exactly "
+            "the copied files and every URL decodes to one of them; each case and seeded random cases are run with real "
+            "directories and real save_html() calls, and TLC judges the before/after directory projections and the URLs "
+            "read back from the written file.",
+            "Trusted: TLC/SANY, Quote/Unquote/UrlFor/Copied/Under in spec/DepFilesOps.tla, os.walk + sha256 directory "
+            "projection, the HTML tokenizer that reads the URLs back, the file system, CPython.",
+            "TLA+ spec (DepFiles/DepFilesOps) model-checked with TLC (fault enumeration over missing files); TLC-generated "
+            "cases replayed on real directories; recorded projections validated by TLC trace spec (FilesTrace)"),
 }
 
 NOT_YET = {}
